@@ -225,7 +225,7 @@ theorem atom_eval {k : Atom Rat} {p : Pw} (h : EntryOK t n (k, p)) :
         have : -(i.natAbs : Int) = i := by omega
         simp only [atomExpr, hneg, if_true]
         rw [evalE_neg root bn t e1]
-        simp [evalNeg, this]
+        simp only [evalNeg, this]
       · have : ((i.toNat : Nat) : Int) = i := by omega
         simp [atomExpr, hneg, evalE, this]
     · simp only [Good, toRat_int]; exact_mod_cast hi
@@ -442,7 +442,7 @@ theorem hasUnitName_split (ns : Names Rat) (hns : ∀ kv ∈ ns, AtomOK t n kv.1
     have e : hasUnitName t (kv :: rest) =
         ((kv.2.v != 0 && (match kv.1 with
           | .sym s => (tlookup t s).isSome
-          | _ => false)) || hasUnitName t rest) := by simp [hasUnitName]
+          | _ => false)) || hasUnitName t rest) := rfl
     rw [e, hrest, symPos_cons, symNeg_cons]
     have hm : (match kv.1 with
           | .sym s => (tlookup t s).isSome
@@ -752,5 +752,26 @@ theorem eval_inv (bn : List String) (t : Table) (n : Nat) (hT : TableOK t n) (e 
           | num y =>
             obtain ⟨r, hr, rfl⟩ := map_ok (by simpa [evalPow] using h)
             exact numPow_ne_zero ha hr
+
+/-! ### small deciders for the kernel-checked witnesses in `OMV/Props/C06.lean` -/
+
+/-- a root oracle that knows `1 ** (1/r) = 1` -/
+def rootOfOne : Rat → Int → Option Rat := fun x _ => if x = 1 then some 1 else none
+
+def simpIs (r : Except Err Simp × Lib) (x : Simp) : Bool :=
+  match r.1 with
+  | .ok y => decide (y = x)
+  | .error _ => false
+
+def simpErrIs (r : Except Err Simp × Lib) (e : Err) : Bool :=
+  match r.1 with
+  | .ok _ => false
+  | .error x => decide (x = e)
+
+/-- `_find_unit` succeeded with this factor, offset and dimension -/
+def findIs (r : Except Err (PUnit Rat) × Lib) (f o : Rat) (p : List Int) : Bool :=
+  match r.1 with
+  | .ok u => decide (u.factor = f ∧ u.offset = o ∧ u.powers = p)
+  | .error _ => false
 
 end OMV.C06
